@@ -50,8 +50,8 @@ P("C03", ["DOWNHILL", "ACCEPT", "KEEP", "LSCAP", "SCALEPOS", "UNITS", "SF1", "SF
   "line search; (KEEP) the failed-search branch does not touch "
   "(x, fun, jac); (LSCAP) the per-iteration evaluation cap is min(.., maxfun - nfev).",
   "monotonicity under non-determinism or rounding of the user's objective itself", design="3/C03")
-P("C04", ["EXIT", "RET", "NITB", "LSCAP", "ONCE", "PGFORM", "LSBUD", "GETB", "FDFIXED"],
-  "(FDFIXED) a variable fixed by lb == ub is treated before the box is handed to SciPy's approx_derivative, whose step for it is 0 (gradient component 0/0 = nan, all projected-gradient tests false, the transient message START returned); (GETB) the projected gradient the report speaks of is taken in the caller's box, which get_bounds hands on unchanged; (LSBUD) the line search spends at most the budget it is given, so that nfev stays within maxfun plus one line search; C04 is a control-flow property and all its clauses are decided: (EXIT) path-sensitive exploration of "
+P("C04", ["EXIT", "RET", "NITB", "LSCAP", "ONCE", "PGFORM", "LSBUD", "GETB", "FDFIXED", "CHOLGUARD"],
+  "(CHOLGUARD) the factorisation of the middle matrix in the memory update sits under a handler of LinAlgError, so that a singular matrix (linearly dependent steps) leads to a documented outcome and not to an exception; (FDFIXED) a variable fixed by lb == ub is treated before the box is handed to SciPy's approx_derivative, whose step for it is 0 (gradient component 0/0 = nan, all projected-gradient tests false, the transient message START returned); (GETB) the projected gradient the report speaks of is taken in the caller's box, which get_bounds hands on unchanged; (LSBUD) the line search spends at most the budget it is given, so that nfev stays within maxfun plus one line search; C04 is a control-flow property and all its clauses are decided: (EXIT) path-sensitive exploration of "
   "minimize_lbfgsb over (message, success flag, comparison knowledge, facts) shows every state reaching a return "
   "carries a documented terminal message that is true of the returned state and success is False exactly for the "
   "abnormal message; (RET) every return is a result built at the return from the internal state and the wrapper's "
@@ -102,8 +102,8 @@ P("C09", ["SIGN", "ALPHA", "FREE", "RATIOFORM", "SUBFORM", "KFACT", "SHARED", "O
   "(RATIOFORM) ratios are (bound - x_c)/dHat; (SUBFORM) reduced gradient r = g + theta(x_c - x) - W M c and step "
   "dHat = -(1/theta)(rHat + (1/theta) Z^T W v) match the direct primal method up to algebraic equivalence.",
   "the solve of the reduced system itself (K, LEL^T, Sherman-Morrison-Woodbury), model decrease, descent direction", design="3/C09")
-P("C10", ["MEM", "BFGSFORM", "OFFER", "RETRY", "MATSOWN", "BIND", "MAXLEN", "INVMFORM", "REBUILD", "INVMSYM", "SF4", "ESC", "OWN", "USEFACT"],
-  "(USEFACT) a non-empty memory is never mistaken for an empty one (exact test in use_factor); (SF4, ESC) the gradients stored in the history are private arrays, never the wrapper's memo or the user's buffer; (OWN) no function writes the matrices it is handed (a rejected pair leaves them untouched); (INVMSYM) the two triangular factors multiply to the inverse middle matrix of the stored pairs, and bmv applies them in the right order; (REBUILD) a restart turns the restored history into matrices before its first iteration; (INVMFORM) the factors of the middle matrix are computed from D, L, S'S, theta by exact algebra (no floor or clamp); (MAXLEN) idem; (BIND) the memory update is given the curvature threshold eps_SY (not another epsilon), so every stored pair satisfies s.y > eps_SY y.y; (MATSOWN) the fields of the compact representation are assigned only inside bfgsmats.py, where BFGSFORM checks them; (RETRY) the retry branch cuts the stored points to one when it resets the matrices, so matrices and stored pairs agree; The four memory-discipline clauses of C10 are decided package-wide over every insertion / removal / rebinding "
+P("C10", ["MEM", "BFGSFORM", "OFFER", "RETRY", "MATSOWN", "BIND", "MAXLEN", "INVMFORM", "REBUILD", "INVMSYM", "SF4", "ESC", "OWN", "USEFACT", "CHOLGUARD"],
+  "(CHOLGUARD) a middle matrix that is not numerically positive definite is an event the run handles (the reference refreshes the memory), not an exception; (USEFACT) a non-empty memory is never mistaken for an empty one (exact test in use_factor); (SF4, ESC) the gradients stored in the history are private arrays, never the wrapper's memo or the user's buffer; (OWN) no function writes the matrices it is handed (a rejected pair leaves them untouched); (INVMSYM) the two triangular factors multiply to the inverse middle matrix of the stored pairs, and bmv applies them in the right order; (REBUILD) a restart turns the restored history into matrices before its first iteration; (INVMFORM) the factors of the middle matrix are computed from D, L, S'S, theta by exact algebra (no floor or clamp); (MAXLEN) idem; (BIND) the memory update is given the curvature threshold eps_SY (not another epsilon), so every stored pair satisfies s.y > eps_SY y.y; (MATSOWN) the fields of the compact representation are assigned only inside bfgsmats.py, where BFGSFORM checks them; (RETRY) the retry branch cuts the stored points to one when it resets the matrices, so matrices and stored pairs agree; The four memory-discipline clauses of C10 are decided package-wide over every insertion / removal / rebinding "
   "of the point and gradient histories (MEM): guarded by the strict curvature test on the inserted pair, "
   "reject-no-touch for history and matrices, bounded FIFO (<= maxcor pairs, oldest dropped), lock-step of X and G; "
   "(BFGSFORM) theta = y.y/s.y of the newest pair and S, Y, L, D, W, the middle-matrix factors assembled from the "
